@@ -448,8 +448,9 @@ Definition r_body (h : impl_hdr) (b : body) : toks :=
 Definition r_eq_checker (h : impl_hdr) (b : body) : option toks :=
   let wrap (inner : toks) :=
     q "const _ : ( ) =" ++
-    tbrace (cmp_allow ++ q "fn __eq_check" ++ r_impl_g (ih_generics h) ++
-            tparen (q "__this : &" ++ r_ty (ih_this h)) ++ r_wheres h ++ tbrace inner) ++ q ";" in
+    tbrace (q "trait __EqCheck" ++ tbrace (q "fn __eq_check ( & self ) ;") ++
+            cmp_allow ++ q "impl" ++ r_impl_g (ih_generics h) ++ q "__EqCheck for" ++ r_ty (ih_this h) ++ r_wheres h ++
+            tbrace (q "fn __eq_check ( & self )" ++ tbrace (q "let __this = self ;" ++ inner))) ++ q ";" in
   match b with
   | BEqStruct cs => Some (wrap (concat (map (r_eq_check SKStruct) cs)))
   | BEqEnum tyname vs =>
